@@ -20,7 +20,8 @@ def run(ctx):
         # the other GMSSL suite, TLS 1.2 ECDHE (ServerKeyExchange in the flight) and TLS 1.0 CBC as further endpoint roles
         d = ctx.tladir()
         t = open(os.path.join(d, "TLCPPeer.cfg")).read()
-        t = t.replace('"server_tls10"}', '"server_tls10", "client_gm_gcm", "server_gm_gcm", "client_tls_ecdhe", "server_tls_ecdhe"}')
+        t = t.replace('"client_tls_ecdhe"}', '"client_tls_ecdhe", "client_gm_gcm", "server_gm_gcm", "server_tls_ecdhe"}')
+        t = t.replace("CutMax = 100", "CutMax = 400")
         cfgname = "TLCPPeer_thorough.cfg"
         with open(os.path.join(d, cfgname), "w") as f:
             f.write(t)
